@@ -67,7 +67,7 @@ def _get_uses_of(node: ast.AST, scope: ast.AST, source: str) -> Iterable[ast.Nam
     # Other places where the same variable is assigned, e.g. in a loop or an if statement
     ctx_store_candidates = {
         refnode
-        for refnode in core.walk(scope, ast.Name(ctx=ast.Store, id=name))
+        for refnode in core.walk(scope, ast.Name(ctx=(ast.Store, ast.Del), id=name))
         if refnode not in blacklisted_names and refnode is not node
     }
 
